@@ -97,7 +97,7 @@ def run_case(case, fault=None):
     info = {'nontrivial': False, 'newsa': {}, 'fault_reached': False}
     if fault is not None and fault.get('phase') == 'setup':
         s.eps[fault['side']].kernel.arm({fault['k']: fault['errno']}, types={KN.NEWSA})
-    ok = s.establish(case.get('first', 'a'))
+    ok = s.establish(case.get('first', 'a'), both=bool(case.get('both')))
     base = {n: len(ep.kernel.requests(KN.NEWSA)) for n, ep in s.eps.items()}
     info['setup_newsa'] = dict(base)
     if fault is not None and fault.get('phase') == 'run':
@@ -134,7 +134,7 @@ def fingerprint(case, info, fault=None):
 
 def body(case, stats):
     fails, info, s = run_case(case)
-    kl = ['history', 'bad:' + str(case['cfg'].get('bad'))]
+    kl = ['history', 'bad:' + str(case['cfg'].get('bad'))] + (['simultaneous-initiation'] if case.get('both') else [])
     if info['dels']:
         kl.append('has-delsa')
     if info['rekeys']:
@@ -218,8 +218,11 @@ def cases(draw, enumerate_):
     ops = draw(walk_with_error_replies(lossy))
     if enumerate_:
         ops = ops[:14]
+    n_auto = draw(st.integers(0, 2)) if not enumerate_ else 0
+    for _ in range(n_auto):
+        ops.insert(draw(st.integers(0, len(ops))), ['auto', draw(st.sampled_from([4, 12, 30])), draw(st.sampled_from([0.5, 1.0, 3.0])), 'none'])
     return {'cfg': draw(cfg_params), 'first': draw(st.sampled_from(['a', 'b'])), 'lossy': lossy, 'ops': ops,
-            'enumerate': enumerate_}
+            'enumerate': enumerate_, 'both': draw(st.integers(0, 3)) == 0}
 
 
 EDITS = ([['error', e] for e in SM.ERRORS] + [['drop', t] for t in ('KE', 'SA', 'NONCE', 'TSi', 'TSr', 'NOTIFY', 'DELETE')] +
